@@ -71,8 +71,20 @@ def subjValToJson : SubjVal → Json
   | .num n => intJ n
   | .bool b => Json.bool b
 
+def envCtxToJson : Envelope.Ctx → Json
+  | .uri .v11Base => Json.mkObj [("uri", "v11")]
+  | .uri .v20Base => Json.mkObj [("uri", "v20")]
+  | .uri .dataIntegrity => Json.mkObj [("uri", "di")]
+  | .uri (.other k) => Json.mkObj [("uri", natJ k)]
+  | .obj k => Json.mkObj [("obj", natJ k)]
+
+/-- the envelope `W3CPresentation::new` writes for the default data-model version (the harness presents with `version = None`) -/
+def libraryPresentationEnv : Json :=
+  Json.mkObj [("ctx", Json.arr ((Envelope.libraryContexts .v11).map envCtxToJson).toArray),
+              ("types", Json.arr #[Json.str Envelope.presentationType])]
+
 def w3cPresentationToJson (p : VerifierW3C.Presentation) : Json :=
-  Json.mkObj [("validate_ok", Json.bool p.validateOk),
+  Json.mkObj [("validate_ok", Json.bool p.validateOk), ("env", libraryPresentationEnv),
     ("creds", Json.arr (p.creds.map (fun c => Json.mkObj [
         ("issuer", Json.str c.issuer), ("subject", assocToJson subjValToJson c.subject), ("proof_ok", Json.bool c.proofOk),
         ("verification_method", Json.str c.verificationMethod), ("schema_id", Json.str c.schemaId),
